@@ -31,6 +31,11 @@ type LALR1 struct {
 	CheckTable  []int
 	ActionDef   []int
 	GoToDef     []int
+
+	// (state, symbol or rule) --> first index in trans, built on first use
+	transIndex map[[2]int]int
+	// (state, rule) --> states reached after each prefix of the right part
+	pathCache map[[2]int][]int
 }
 
 // q --t--> p
@@ -59,6 +64,8 @@ func NewLALR(g *grammar.Grammar) *LALR1 {
 }
 
 func (lalr *LALR1) BuildTrans() {
+	lalr.transIndex = nil
+	lalr.pathCache = nil
 	g := lalr.G
 	lr0 := g.LR0
 	states := lr0.LR0Closure
@@ -189,7 +196,7 @@ func (lalr *LALR1) CaclIncludeRelation(tr int) []Relation {
 			if sy == sycheck && lalr.seqenceCanEpsilon(r.RighPart[Dot+1:]) {
 				for _, q := range lalr.fechStateNumber(index) {
 					// p' --- beta --> p must hold for (p, A) includes (p', B)
-					if lalr.walkPath(q, r.RighPart[:Dot]) != lalr.trans[tr].q {
+					if lalr.pathStates(q, index)[Dot] != lalr.trans[tr].q {
 						continue
 					}
 					if to_index, err := lalr.fetchTransIndex(q, int(LeftSy.ID)); err == nil {
@@ -225,7 +232,7 @@ func (lalr *LALR1) CalcLookbacks() []Relation {
 			SyIndex := lalr.trans[tr_2].sym_or_rule
 			// (q, A->w) lookback (p, A) only if p --- w --> q
 			if SyIndex == leftPart.ID &&
-				lalr.walkPath(lalr.trans[tr_2].q, lalr.G.ProductoinRules[ruleIndex].RighPart) == tr.q {
+				lalr.pathEnd(lalr.trans[tr_2].q, int(ruleIndex)) == tr.q {
 				// trIndex lookback tr2
 				res = append(res, Relation{x: trIndex, y: tr_2})
 			}
